@@ -189,6 +189,8 @@ func vfFixedSpecs() []vfSpec {
 		{name: "long-eids-big-numbers", src: long, dst: long + "/dst", rpt: "ipn:18446744073709551615.4294967296", pcrc: CRC32,
 			flags: StatusRequestDelivery | StatusRequestForward | RequestStatusTime, seq: 1 << 40, lifetime: 1 << 33, plCrc: CRC32,
 			blocks: []vfBlk{{kind: "hop", num: 2, a: 64, c: 0}}},
+		{name: "all-crc32-tight", src: "ipn:1.2", dst: "ipn:3.4", rpt: "ipn:1.2", pcrc: CRC32, lifetime: vfHour, plCrc: CRC32,
+			blocks: []vfBlk{{kind: "hop", num: 2, a: 64, c: 0, crc: CRC32}, {kind: "gen", num: 3, typ: 197, data: []byte{1, 2}, crc: CRC32, flags: ReplicateBlock}}},
 		{name: "block-number-zero", src: "dtn://src/", dst: "dtn://dst/", rpt: "dtn://src/", pcrc: CRC32, lifetime: vfHour, plCrc: CRCNo,
 			blocks: []vfBlk{{kind: "gen", num: 0, typ: 77, data: []byte{1}, flags: ReplicateBlock}, {kind: "hop", num: 23, a: 1, c: 0}}},
 	}
@@ -216,6 +218,10 @@ func vfRandomSpec(r *vfRng, i int) vfSpec {
 		s.plFlags = ReplicateBlock
 	}
 	s.zeroTime = r.intn(4) == 0
+	tight := r.intn(3) == 0 // every block with CRC-32: the overhead estimate is then exact
+	if tight {
+		s.plCrc = CRC32
+	}
 	kinds := []string{"hop", "age", "prev", "gen", "gen", "gen"}
 	perm := []int{0, 1, 2, 3, 4, 5}
 	for k := len(perm) - 1; k > 0; k-- {
@@ -229,6 +235,9 @@ func vfRandomSpec(r *vfRng, i int) vfSpec {
 	for k := 0; k < n; k++ {
 		kd := kinds[perm[k]]
 		blk := vfBlk{kind: kd, crc: crcs[r.intn(3)]}
+		if tight {
+			blk.crc = CRC32
+		}
 		switch r.intn(4) {
 		case 0:
 			blk.flags = ReplicateBlock
